@@ -57,7 +57,7 @@ CHECKS = {
          "DESIGN.md §4 C11"),
  "C12": ("exploration",
          "exhaustive enumeration of call interleavings of 2-3 instances (one thread) + free-running threads (sampled) + repeated process launches",
-         "For each of 42 (quick) / 105 (thorough) sketcher kinds (all 9 sketcher types x sizes x register types x entry points incl. std HashMap) every interleaving at call granularity of the call sequences (construction included) of 2 instances x 4 (5) steps and 3 instances x 3 (4) steps is executed, with identical and with different inputs (147000 interleavings quick); each instance must return its solo result. 40 (200) weighted sets of 2000 and 150 items go through the std-HashMap entry points of the four ProbMinHash variants on two instances each (independent iteration orders). This closes the schedule quantifier at call granularity, which is where state hoisted into a static / thread-local / process global shows; the unchanged crate has no lock or atomic, so there is no finer scheduling point for a controlled scheduler. Then 20 (100) barrier-released rounds of 2..16 OS threads (sampling, labelled as such) and 8 (32) process launches whose digests must agree bit for bit.",
+         "For each of 42 (quick) / 105 (thorough) sketcher kinds (all 9 sketcher types x sizes x register types x entry points incl. std HashMap) every interleaving at call granularity of the call sequences (construction included) of 2 instances x 4 (5) steps and 3 instances x 3 (4) steps is executed, with identical and with different inputs (147000 interleavings quick); each instance must return its solo result. 800 (2000) weighted sets of 2000 and 150 items (two weight regimes) go through the std-HashMap entry points of the four ProbMinHash variants on two instances each (independent iteration orders). This closes the schedule quantifier at call granularity, which is where state hoisted into a static / thread-local / process global shows; the unchanged crate has no lock or atomic, so there is no finer scheduling point for a controlled scheduler. Then 20 (100) barrier-released rounds of 2..16 OS threads (sampling, labelled as such) and 8 (32) process launches whose digests must agree bit for bit.",
          "threads are sampled, not enumerated; a data race inside a call introduced via unsafe would need a race detector",
          "DESIGN.md §4 C12"),
  "C10": ("exploration",
